@@ -162,3 +162,44 @@ PROPS["C08"] = dict(
     require=["u64-printed", "i64-printed", "integer-node-roundtrips", "below_1e8_stride", "digit_count_boundaries"],
     assumptions=["glibc snprintf %llu/%lld"],
 )
+
+# ------------------------------------------------------------------------------------------------ C09
+PROPS["C09"] = dict(
+    title="String quoting is exact for all bytes and stays inside its buffers",
+    rule=("internal::Quote and Node::SetString(ptr,len)+Serialize: every byte value at every position 0..95 of strings of 12 lengths "
+          "0..130; dense/random/all-escape strings up to 300 bytes; for every length 0..200 five contents (no escape, escape last, "
+          "escape inside the sub-vector tail followed by bytes, mixed, random) with the source ending 0..130 bytes before an unmapped "
+          "page and the destination holding exactly 6n+32+3 bytes before an unmapped page (production builds), exact heap blocks "
+          "(ASan build); oracle: one-to-one unit alignment of output and input (verbatim byte or a correct escape), length<=6n+2, "
+          "output independent of the bytes after the string, decode(serialised)==input; audit of kQuoteTab/kNeedEscaped; distinct = hash of the string"),
+    runs=[
+        dict(name="prod-hsw", src="kernel_harness.cpp", cfg="prod-hsw", env={}, args=["--prop", "C09"]),
+        dict(name="prod-wsm", src="kernel_harness.cpp", cfg="prod-wsm", env={}, args=["--prop", "C09"]),
+        dict(name="prod-dyn", src="kernel_harness.cpp", cfg="prod-dyn", env={}, args=["--prop", "C09"]),
+        dict(name="asan-hsw", src="kernel_harness.cpp", cfg="asan-hsw", env=ASAN_ENV, args=["--prop", "C09"]),
+        dict(name="asan-wsm", src="kernel_harness.cpp", cfg="asan-wsm", env=ASAN_ENV, args=["--prop", "C09"]),
+    ],
+    require=["quote-calls", "quote-via-node-serialize", "placement:ends-on-last-mapped-byte", "placement:ends-1..130-bytes-before-unmapped",
+             "placement:exact-heap-block", "content:escape-in-sub-vector-tail-followed-by-bytes", "audit:quote-table-entries"],
+    assumptions=["a stray read is observable only if it crosses into the PROT_NONE page (production) or the ASan red zone (sanitizer build)"],
+)
+
+# ------------------------------------------------------------------------------------------------ C14
+PROPS["C14"] = dict(
+    title="Member lookup compares keys by exact bytes for every length and address",
+    rule=("InlinedMemcmpEq / InlinedMemcmp vs memcmp for every length 0..130 (thorough 300) x mismatch position {none, first, last, each "
+          "side of 16/32-byte boundaries, the window a tail-overlap load does not cover, random} x operand a ending 0..64 bytes before "
+          "an unmapped page x operand b starting 0..100 bytes after an unmapped page or ending 0..64 before one (production build; exact "
+          "heap blocks under ASan); bytes outside the ranges randomised; FindMember(view), FindMember(ptr,len), HasMember, operator[] "
+          "against a byte-wise model for key lengths 0..130 with one-byte-different / prefix / extension near misses, with and without "
+          "lookup map, copied and referenced keys, query key abutting unmapped memory; distinct = enumerated (length, mismatch) classes + hashed random pairs"),
+    runs=[
+        dict(name="prod-hsw", src="kernel_harness.cpp", cfg="prod-hsw", env={}, args=["--prop", "C14"]),
+        dict(name="prod-wsm", src="kernel_harness.cpp", cfg="prod-wsm", env={}, args=["--prop", "C14"]),
+        dict(name="prod-dyn", src="kernel_harness.cpp", cfg="prod-dyn", env={}, args=["--prop", "C14"]),
+        dict(name="asan-hsw", src="kernel_harness.cpp", cfg="asan-hsw", env=ASAN_ENV, args=["--prop", "C14"]),
+    ],
+    require=["memcmp-kernel-pairs", "pairs:equal", "pairs:different", "placement:an-operand-ends-on-last-mapped-byte",
+             "placement:31-byte-operand-at-page-offset-4065-vs-page-start", "findmember-queries-with-map", "lookup:hit", "lookup:miss"],
+    assumptions=["glibc memcmp as reference; page size 4096"],
+)
